@@ -544,6 +544,50 @@ for _text_limit in ("maxstring", "maxother"):
                 if postconditions:
 """, "all"),
     ],
+    "mutants/c20_fix_partial_order_sets_reverted": [
+        # the reproducible order is only used again when the plain sort fails
+        ("icontract/_globals.py", """        try:
+            return sorted(
+                items,
+                key=lambda item: (type(item).__name__, self.repr1(item, level - 1)),
+            )
+""", """        try:
+            return sorted(items)
+        except Exception:  # pylint: disable=broad-except
+            pass
+
+        try:
+            return sorted(
+                items,
+                key=lambda item: (type(item).__name__, self.repr1(item, level - 1)),
+            )
+"""),
+    ],
+    "seeded/C20_r6_set_truncated_before_ordering": [
+        ("icontract/_globals.py", "import os\nimport reprlib\n", "import itertools\nimport os\nimport reprlib\n"),
+        ("icontract/_globals.py", """    def _in_reproducible_order(self, items: Iterable[Any], level: int) -> List[Any]:
+""", """    def _in_reproducible_order(self, items: Iterable[Any], level: int, limit: int = 10 ** 9) -> List[Any]:
+"""),
+        ("icontract/_globals.py", """        try:
+            return sorted(
+                items,
+                key=lambda item: (type(item).__name__, self.repr1(item, level - 1)),
+            )
+""", """        # Only ``limit`` items are shown. We order thus at most ``limit + 1`` items (the surplus item makes ``reprlib``
+        # append the ellipsis) instead of computing the sort keys for all the items of a possibly huge set.
+        items = list(itertools.islice(items, limit + 1))
+
+        try:
+            return sorted(
+                items,
+                key=lambda item: (type(item).__name__, self.repr1(item, level - 1)),
+            )
+"""),
+        ("icontract/_globals.py", "        return super().repr_set(self._in_reproducible_order(x, level), level)  # type: ignore\n",
+         "        return super().repr_set(self._in_reproducible_order(x, level, self.maxset), level)  # type: ignore\n"),
+        ("icontract/_globals.py", "        return super().repr_frozenset(self._in_reproducible_order(x, level), level)  # type: ignore\n",
+         "        return super().repr_frozenset(self._in_reproducible_order(x, level, self.maxfrozenset), level)  # type: ignore\n"),
+    ],
     "mutants/c14_fix_unreadable_class_attribute_reverted": [
         (CHK, """        try:
             value = getattr(cls, name)
